@@ -1,6 +1,7 @@
 package isaac
 
 import (
+	"github.com/pkg/errors"
 	"context"
 	"time"
 
@@ -233,4 +234,72 @@ func VerifC07Selector() {
 		}
 	}
 	verifrt.Assert(member, "C07.selector.proposer-is-a-member-of-that-suffrage")
+}
+
+// ---- after an unreachable proposer -------------------------------------------------
+
+// verifC07FlakyPool: nothing stored locally; requests to the node `dead` fail.
+type verifC07FlakyPool struct {
+	verifC07Pool
+}
+
+func (p *verifC07FlakyPool) ProposalByPoint(base.Point, base.Address, util.Hash) (base.ProposalSignFact, bool, error) {
+	return nil, false, nil
+}
+
+// VerifC07AfterUnreachableProposer: a node holds its suffrage nodes in one slice (what
+// Suffrage.Nodes() hands out) and uses it for every selection. In one round the selected
+// proposer cannot be reached (the node falls back to the others). Afterwards the node still
+// selects, for later rounds, the same proposer as a node that had no failure, and its suffrage
+// listing still holds exactly the suffrage members.
+func VerifC07AfterUnreachableProposer() {
+	n := 3 + verifrt.NondetChoice("n", verifrt.Bound("unreachable.n", 2, 3))
+	as := verifC07Addresses(n, false)
+	held := verifC07Nodes(as) // the slice this node keeps and hands to every selection
+	point := base.RawPoint(33, 0)
+	// one symbolic byte of the previous block hash decides the selection (sum of bytes mod n)
+	hb := make([]byte, 32)
+	hb[31] = verifrt.NondetU8("previousblock.lastbyte")
+	prev := valuehash.NewBytes(hb)
+	dead := verifC07Pick(held, point, prev, "C07.unreachable.reference").Address()
+	pool := &verifC07FlakyPool{}
+	args := NewBaseProposalSelectorArgs()
+	args.Pool = pool
+	args.ProposerSelectFunc = NewBlockBasedProposerSelector().Select
+	args.GetNodesFunc = func(base.Height) ([]base.Node, bool, error) { return held, true, nil }
+	args.MinProposerWait = 100 * time.Millisecond
+	args.RequestProposalInterval = 60 * time.Millisecond
+	args.TimeoutRequest = func() time.Duration { return 10 * time.Millisecond }
+	args.RequestFunc = func(_ context.Context, p base.Point, proposer base.Node, _ util.Hash) (base.ProposalSignFact, bool, error) {
+		if proposer.Address().Equal(dead) {
+			return nil, false, errors.Errorf("unreachable")
+		}
+		return verifC07Proposal{point: p, proposer: proposer.Address()}, true, nil
+	}
+	local := base.NewBaseLocalNode(NodeHint, verifC07Priv{}, base.NewStringAddress("observer"))
+	ps := NewBaseProposalSelector(local, args)
+	pr, err := ps.Select(context.Background(), point, prev, 100*time.Millisecond)
+	verifrt.Reach("C07.unreachable.first-round-done")
+	verifrt.Assert(err == nil && pr != nil, "C07.unreachable.a-proposal-of-another-member-is-taken")
+	// the held listing still is the suffrage
+	verifrt.Assert(len(held) == n, "C07.unreachable.listing-keeps-its-size")
+	for i := range as {
+		cnt := 0
+		for j := range held {
+			if held[j].Address().Equal(as[i]) {
+				cnt++
+			}
+		}
+		verifrt.Assert(cnt == 1, "C07.selected-proposer-is-a-member(the-node's-suffrage-listing-still-holds-every-member-exactly-once-after-a-failed-request)")
+	}
+	// later rounds: same proposer as a node without the failure
+	for r := uint64(1); r <= uint64(verifrt.Bound("unreachable.rounds", 2, 3)); r++ {
+		p := base.RawPoint(33, r)
+		want := verifC07Pick(verifC07Nodes(as), p, prev, "C07.unreachable.other-node")
+		nodes, found, err := ps.getNodes(p.Height(), args.GetNodesFunc)
+		verifrt.Assert(err == nil && found, "C07.unreachable.nodes")
+		got, err := NewBlockBasedProposerSelector().Select(context.Background(), p, nodes, prev)
+		verifrt.Assert(err == nil && got != nil && got.Address().Equal(want.Address()),
+			"C07.every-node-selects-the-same-proposer(also-a-node-that-could-not-reach-a-proposer-before)")
+	}
 }
